@@ -385,7 +385,12 @@ def check_inversion(col, doc_text, attr, op, term, data=None):
         p = pathgen.render([("search", inv, attr, op, term)])
         st = YAMLPath(p).escaped[0][1]
         if (st.inverted, st.attribute, str(st.method), st.term) != (inv, attr, op, term):
-            raise AssertionError("harness: path %r parsed to %r" % (p, (st.inverted, st.attribute, str(st.method), st.term)))
+            # the search segment the harness wrote is not the one the parser delivers: whatever is compared next is not
+            # the documented comparison of THIS term (a parser defect, reported here because the operators depend on it)
+            col.witness("C12/search-term-not-delivered-as-written/%s" % ("empty-quoted-term" if term == "" else "other"),
+                        "the path %r parses to (inverted, attribute, operator, term) = %r" % (p, (st.inverted, st.attribute, str(st.method), st.term)),
+                        inp, observed=[st.inverted, st.attribute, str(st.method), st.term], expected=[inv, attr, op, term])
+            return
         paths[inv] = p
     if data is None:
         data = gen.load(doc_text)
